@@ -178,6 +178,19 @@ def gen(t, tier):
         sc['ops'] += [['ocean', a], ['get', y], ['adv', t.pick([1, 2, 10])], ['ocean', 1 - a], ['get', x], ['get', x],
                       ['adv', t.pick([1, 2, 10])], ['ocean', a], ['purge', x], ['get', x], ['get', x],
                       ['cond', x, t.pick(['ims', 'inm']), 'previous']]
+    if backend == 'sqlite' and not sc['two_sources'] and t.chance(0.3):
+        # a backend with whole-second time stamps: a tile is replaced within the second in which the previous version was
+        # written, by an image of another size (a constant-colour tile becomes a detailed one or the other way round)
+        sc['ocean'] = True
+        for xx in range(n):
+            for yy in range(n):
+                if U.is_ocean_tile([xx, yy, z]) and [xx, yy, z] not in coords and not any(U.is_ocean_tile(c) for c in coords):
+                    coords.append([xx, yy, z])
+        x = [i for i, c in enumerate(coords) if U.is_ocean_tile(c)][0]
+        a = t.choice(2)
+        first, second = t.pick([(a, 2), (2, a)])
+        sc['ops'] += [['ocean', first], ['get', x], ['get', x], ['ocean', second], ['purge', x], ['get', x], ['get', x],
+                      ['cond', x, 'inm', 'previous']]
     for _ in range(nops):
         linked = backend == 'file-link'
         k = t.weighted([('get', 5), ('cond', 8), ('adv', 3), ('rewrite', (6 if linked else 2) if sc['refresh'] else 0),
@@ -405,8 +418,10 @@ def _run(sc, tape):
             if l is not None and l['epoch'] != ep and l['etag'] is not None:
                 prev[u] = {'etag': l['etag'], 'lm': l['lm']}
                 # (a backend with whole-second timestamps cannot tell two writes of equal size within one second apart)
+                # - but it can tell them apart when their sizes differ (the tile services send the stored bytes as they are)
                 if l['etag'] == hd.get('etag') and l['body'] != body and \
-                        (sc['backend'].startswith('file') or l['lm'] != hd.get('last-modified')):
+                        (sc['backend'].startswith('file') or l['lm'] != hd.get('last-modified') or
+                         (sc['service'] != 'wmsc' and len(l['body']) != len(body))):
                     raise Bad('etag-unchanged-after-rewrite', '%s: the tile was rewritten with different content but still has the '
                               'ETag %r: a client revalidating its old copy is answered 304' % (what, l['etag']))
             last[u] = {'epoch': ep, 'etag': hd.get('etag'), 'lm': hd.get('last-modified'), 'body': body, 'val': val}
@@ -443,7 +458,7 @@ def _run(sc, tape):
                 elif k == 'up404':
                     http.fail_code = 404 if op[1] else None
                 elif k == 'ocean':
-                    http.ocean = OCEANS[op[1]]
+                    http.ocean = OCEANS[op[1]] if op[1] < len(OCEANS) else None     # 2: no constant-colour tiles at all
                 elif k == 'purge':
                     # an operator removes the tile (cleanup); the next request re-creates it
                     from mapproxy.cache.tile import Tile
